@@ -147,6 +147,85 @@ CHECKS["C08"] = ("TLC exhaustive check of TcpAuth.tla (authenticator order, mark
     "freshness clause, by the property's wording.",
     "DESIGN.md section 4 C08")
 
+_TC = ("TcpConn.tla models StreamServe / Handle / handleConnection / absorbProbe / proxyConnection and the measured connection at the "
+       "granularity of the code's steps (read 50 bytes, find key, salt and replay checks, read address, dial, the two independent copy "
+       "loops with their half-closes, drains, metrics calls), with a logical clock for the handshake deadline. ")
+CHECKS["C02"] = ("TLC exhaustive check of TcpConn.tla relay phase (all orders of who speaks / half-closes first, all interleavings of the two copy "
+    "loops) incl. liveness under fairness + TLC-generated scripts executed through the real handler with a real Shadowsocks client and "
+    "scripted targets; per-observer traces judged by TcpConnTrace.tla",
+    _TC + "C02: delivered bytes are a prefix of what was sent and equal it at FIN, FIN only after all data, the other direction keeps "
+    "flowing after a half-close, everything sent is eventually delivered (fairness). Scripts generated by TLC (chunks mapped to sizes "
+    "0,1,2,1000,16383,random; address types 1/3/4; address alone or coalesced) run on loopback sockets; client and target record "
+    "lengths, SHA-256 digests and FINs, which TLC validates.",
+    "Chunk sizes are sampled, not all 16383; <=3 chunks each way in the exhaustive model.",
+    "DESIGN.md section 4 C02")
+CHECKS["C06"] = ("TLC exhaustive check of TcpConn.tla pre-authentication and drain phases with a logical clock + TLC-generated probe scripts on the "
+    "real handler (real sockets with a short timeout; virtual time with in-memory connections and the 59 s timeout); traces judged by "
+    "TcpConnTrace.tla",
+    _TC + "C06: unauthenticated => zero bytes to the client; close only after client FIN or the deadline; close instant a function of "
+    "the accept time only; post-authentication invalid streams are drained while the client keeps the connection open. The variant "
+    "that drains through the decrypting reader (pinned code) is the negative control. Probe classes x lengths x four ciphers x key "
+    "list sizes x replay cache on/off x client FIN or not run on the real handler; under testing/synctest the close instants are "
+    "compared exactly.",
+    "FIN vs RST is classified only for clients that are quiescent before the deadline. Single-bit corruption: one flip per offset class "
+    "per seed in quick, all offsets in thorough.",
+    "DESIGN.md section 4 C06")
+CHECKS["C15"] = ("TLC exhaustive check of the metrics observation language of TcpConn.tla + TLC-generated scenarios for every outcome class on the "
+    "real handler with a recording TCPConnMetrics and with the real Prometheus collectors; wire byte counts measured independently at "
+    "the harness sockets; judged by TcpConnTrace.tla",
+    _TC + "C15: per connection the calls form Open (Authenticated)? (Probe)? Closed, Probe <=> authentication failed, one status per "
+    "outcome class, and the four byte counters equal the wire counts of complete connections (never exceed them otherwise). "
+    "Scenarios for success, cipher failure, both replay kinds, bad / disallowed address, connect failure and relay errors either "
+    "way run on the real handler; a second pass uses prometheus.NewServiceMetrics in a private registry; a concurrent variant "
+    "compares totals over 50-500 connections.",
+    "Exact spelling of statuses that PROBES.md does not document is compared as drift.",
+    "DESIGN.md section 4 C15")
+_UD = ("UdpNat.tla models packetHandler.Handle, trial decryption over a key-list snapshot, validatePacket, the NAT map, natconn deadlines "
+       "(configured timeout, 17 s DNS rule, fast-close latch), timedCopy and expiry, with a logical clock. ")
+CHECKS["C03"] = ("TLC exhaustive check of UdpNat.tla + TLC-generated datagram sequences through the real PacketHandler on loopback sockets with "
+    "mixed-cipher key lists; target/client/metrics traces judged by UdpNatTrace.tla",
+    _UD + "C03: forwarded => authenticated under a configured key (new client) or the association's key (known client); payload "
+    "identity; replies under the same key with a fresh salt and the true sender in the header (IPv4 type 1, IPv6 type 4); invalid "
+    "datagrams cause no socket, no entry, no outbound traffic. Behaviours (valid / wrong-key / truncated / garbage, sizes 0..max+1, "
+    "replies from the addressed target, another port, a stranger) run through the real handler; clients decrypt replies under every "
+    "key to learn which was used.",
+    "<=3 clients, <=3 keys, <=6 datagrams per behaviour in the exhaustive model.",
+    "DESIGN.md section 4 C03")
+CHECKS["C04"] = ("TLC exhaustive check of the NAT-table invariants of UdpNat.tla + the C03 driver with >=3 client sockets and >=2 targets recording "
+    "source addresses; judged by UdpNatTrace.tla",
+    _UD + "C04: client -> socket injective while alive, a datagram arriving on a socket is delivered exactly to its owner, an association "
+    "is created only after authentication and destination validation. Targets log the source address of every datagram, clients log "
+    "every reply including unsolicited ones sent by a stranger socket to the association's port.",
+    "One packet handler = one NAT table (two generations during a reload have one each).",
+    "DESIGN.md section 4 C04")
+CHECKS["C14"] = ("TLC exhaustive check of the deadline/fast-close/expiry actions of UdpNat.tla (liveness under fairness) + behaviours replayed with "
+    "exact instants on the real natmap under testing/synctest (in-package) and on real sockets with a 300 ms timeout; judged by "
+    "UdpNatTrace.tla",
+    _UD + "C14: the deadline never moves earlier except by the fast close; usable for the configured timeout after the last non-DNS and "
+    "17 s after the last DNS datagram; expiry within a bound; exactly one removal; a single-DNS-query association closes right after "
+    "the first DNS reply; shutdown expires everything; sockets and goroutines return to zero. In virtual time the recorded "
+    "SetReadDeadline instants are compared with the model's clock as equalities.",
+    "A datagram racing with the fast close may be written to a dying association (the model allows it). Thorough adds one real 17 s run.",
+    "DESIGN.md section 4 C14")
+CHECKS["C16"] = ("TLC exhaustive check of the metrics observation of UdpNat.tla + the C03/C04/C14 replays with a recording UDPMetrics and with the "
+    "real Prometheus collectors; sizes measured at the harness sockets; judged by UdpNatTrace.tla",
+    _UD + "C16: per association NatAdd(key) once, NatRemove once; one report per client datagram on an association (wire size, payload "
+    "sent to the target, status) and per target datagram; per key and direction the reported sums equal the sums measured at the "
+    "sockets.",
+    "Rejected first datagrams (no association) have no per-association report by construction of the code; the model states this.",
+    "DESIGN.md section 4 C16")
+CHECKS["C18"] = ("TLC termination/total-outcome properties of TcpConn.tla and UdpNat.tla + model-enumerated input classes sent authenticated through "
+    "the real handlers in child processes (exit status, panic log records, goroutine/fd accounting) + the real binary driven at process "
+    "level; judged by the TcpConn/UdpNat/Reload trace specs",
+    "Every handler action of the two models has a total outcome and AllDone implies no goroutine or socket is left; StreamServe returns "
+    "only after all handlers returned; a failure on one connection leaves the others untouched. The input classes the models "
+    "enumerate (address types 0..255, domain lengths 0/1/255, headers truncated at each field, chunk lengths 0/0x3FFF/masked, reply "
+    "sizes up to the pack buffer, reply sources IPv4/IPv6/zoned link-local, termination and shutdown orders) are executed on the real "
+    "code; each family runs in a child process so that unrecovered panics are seen as exit status; recovered panics are read from "
+    "slog records.",
+    "'All raw byte strings' = classes x seeded random. The zoned link-local case needs eth0 with a link-local address.",
+    "DESIGN.md section 4 C18")
+
 PENDING = {}
 
 def main():
